@@ -715,6 +715,7 @@ func (d *dataPlane) Run(ctx context.Context) error {
 	)
 	d.initPacketPool(processorQueueSize)
 	procQs, slowQs := d.initQueues(processorQueueSize)
+	verifQueues(procQs, slowQs)
 	d.setRunning()
 	for _, u := range d.underlays {
 		u.Start(ctx, d.packetPool, procQs)
@@ -722,12 +723,14 @@ func (d *dataPlane) Run(ctx context.Context) error {
 	for i := range d.RunConfig.NumProcessors {
 		go func(i int) {
 			defer log.HandlePanic()
+			defer VerifRecover()
 			d.runProcessor(i, procQs[i], slowQs[i%d.RunConfig.NumSlowPathProcessors])
 		}(i)
 	}
 	for i := range d.RunConfig.NumSlowPathProcessors {
 		go func(i int) {
 			defer log.HandlePanic()
+			defer VerifRecover()
 			d.runSlowPathProcessor(i, slowQs[i])
 		}(i)
 	}
